@@ -877,8 +877,12 @@ func (fc *FuncCtx) callSiteClauses(st *State, env *Env, cshort string, ord int, 
 			if label == "" {
 				label = fmt.Sprint(i + 1)
 			}
+			// known-finding witnesses of a call-site clause are evaluated in the environment of the call (callee parameter
+			// names, caller variables) over a snapshot of the state at the call
+			we := *env
+			we.st = st.clone()
 			v.addObligation(&Obligation{Name: fmt.Sprintf("%s#call%d[%s].requires.%s", fc.short, ord, cshort, label), Kind: "call", Func: fc.key,
-				Pos: v.fset.Position(ins.Pos()).String(), Assume: pc, Goal: t, Expect: "unsat", Src: cl.Src})
+				Pos: v.fset.Position(ins.Pos()).String(), Assume: pc, Goal: t, Expect: "unsat", Src: cl.Src, wenv: &we})
 			// a call-site clause is also a cut: once proved at this point it may be used afterwards
 			st.assume(v.c, t)
 		}
@@ -962,6 +966,11 @@ func (fc *FuncCtx) assumeEnsuresSubst(st, pre *State, spec *FuncSpec, key string
 		conj = append(conj, t)
 	}
 	for _, e := range spec.Ensures {
+		if ensuresMentionsRet(spec, e.E) {
+			// a postcondition over ret(Callee, n, i) speaks about the callee's own call history: it is proved for the
+			// callee and not exported to its callers
+			continue
+		}
 		t, err := post.EvalBool(e.E)
 		if err != nil {
 			panic(specError{fmt.Sprintf("ensures of %s (line %d): %v", key, e.Line, err)})
@@ -996,6 +1005,29 @@ func (fc *FuncCtx) assumeEnsuresSubst(st, pre *State, spec *FuncSpec, key string
 		st.assume(c, c.Subst(t, sub))
 	}
 	return sub
+}
+
+// ensuresMentionsRet: the expression uses ret(Callee, n, i), directly or through a `let` macro of the contract.
+func ensuresMentionsRet(spec *FuncSpec, e *Expr) bool {
+	if e == nil {
+		return false
+	}
+	if e.Kind == "call" && e.Name == "ret" {
+		return true
+	}
+	if e.Kind == "id" {
+		for _, l := range spec.Lets {
+			if l.Name == e.Name && strings.Contains(l.Type, "ret(") {
+				return true
+			}
+		}
+	}
+	for _, a := range e.Args {
+		if ensuresMentionsRet(spec, a) {
+			return true
+		}
+	}
+	return false
 }
 
 // ensuresMentionFresh: some postcondition of the contract uses fresh(...).
